@@ -2,8 +2,9 @@
 (* C17 judge (property level).  It knows nothing about locks, atomics or storage calls: it    *)
 (* only sees who was admitted, refused and released, and occupancy numbers read off the real  *)
 (* objects.  Alphabet, per trace:                                                              *)
-(*   Cfg     [kind, n, lim, pre]      which limit, number of racing requests, the configured   *)
-(*                                    limit (0 = unlimited), occupants present at the start    *)
+(*   Cfg     [kind, n, lim, pre, tag] which limit, number of racing requests, the configured   *)
+(*                                    limit (0 = unlimited), occupants present at the start;   *)
+(*                                    tag (optional) = input class, part of the verdict detail *)
 (*   Admit   [p]                      request p holds a slot (logged AFTER the admission took  *)
 (*                                    effect: the call returned / the handler is past the add) *)
 (*   Release [p, old]                 p gives its slot up (logged BEFORE the slot is freed, or *)
@@ -29,6 +30,7 @@ Init == l = 1 /\ viol = {} /\ lim = 0 /\ pre = 0 /\ adm = {} /\ gone = {} /\ det
 TrCfg == /\ Is("Cfg")
          /\ lim' = Ev.lim /\ pre' = Ev.pre
          /\ det' = Ev.kind \o ":N=" \o ToString(Ev.n) \o ":limit=" \o ToString(Ev.lim)
+                   \o (IF Has("tag") /\ Ev.tag # "" THEN ":" \o Ev.tag ELSE "")
          /\ l' = l + 1 /\ UNCHANGED <<viol, adm, gone, nref>>
 
 Over(k) == lim > 0 /\ k > lim      \* limit 0 = unlimited: nothing to exceed
